@@ -221,21 +221,31 @@ Theorem C24_fetcher_no_double_close : forall c tr s, steps c (Fetcher.init c) tr
 Proof. exact accounting. Qed.
 Print Assumptions C24_fetcher_no_double_close.
 
-(* No lost wake-up, local form (PARTIAL).  A Get call waiting for transaction t can take its next step
-   as soon as every key of t is cached, or the fetcher was stopped.
-   Full intended statement (not proved): in every reachable state without error, with >= 1 worker and
-   capacity >= 1, either some label of the fetcher's own threads / blocked callers is enabled or every
-   submitted Fetch and Get call has returned.  Missing: the global liveness invariant "an uncached key
-   with an entry has a task token in some Fetch call's unsent list, in the channel or in a worker, or
-   the error path is active" (InvA of Proofs/Fetcher_proofs.v already provides the error/once/exit
-   clauses it needs).  The driver samples this (no call may hang). *)
-Theorem C24_fetcher_no_lost_wakeup_partial : forall c tr s g t r,
+(* No lost wake-up, local form: a Get call waiting for transaction t can take its next step as soon as
+   every key of t is cached, or the fetcher was stopped. *)
+Theorem C24_fetcher_no_lost_wakeup : forall c tr s g t r,
   steps c (Fetcher.init c) tr s -> dupid s = false ->
   gph s g = GWait t -> txs s t = Some r ->
   (forall k, k ∈ tkeys r -> cachedK (keys s) k = true) \/ stop s = true ->
   exists b s', Fetcher.step c s (LGetWake g b) = Some s'.
 Proof. exact wake_enabled. Qed.
-Print Assumptions C24_fetcher_no_lost_wakeup_partial.
+Print Assumptions C24_fetcher_no_lost_wakeup.
+
+(* No deadlock (ids distinct, >= 1 worker, channel capacity >= 1; with or without errors): in every
+   reachable state either a label of the fetcher's own threads or of a caller already inside Fetch / Get
+   is enabled ([is_internal]: everything except the environment's LFetch / LGetBegin / LStop / LWaitClose /
+   LWaitRet), or the fetcher is quiescent: every submitted Fetch call and every submitted Get call has
+   returned, no task is left unsent, every worker is idle or has exited.  Hence no Get and no Fetch blocks
+   forever (under a fair scheduler), whatever the interleaving. *)
+Theorem C24_fetcher_no_deadlock : forall c tr s,
+  steps c (Fetcher.init c) tr s -> dupid s = false -> (1 <= c_nw c)%nat -> (1 <= c_cap c)%nat ->
+  (forall l, is_internal l = true -> Fetcher.step c s l = None) ->
+  (forall w p, ws s !! w = Some p -> p = WIdle \/ p = WExit) /\
+  unsent s = [] /\
+  (forall i, fph s i = FNone \/ exists e, fph s i = FRet e) /\
+  (forall g, gph s g = GNone \/ exists r, gph s g = GRet r).
+Proof. exact progress. Qed.
+Print Assumptions C24_fetcher_no_deadlock.
 
 (* Errors are never absence.  For every reachable state: a Get that returns an error returns the
    fetcher's non-nil error; a failing read that happened is never lost (the error is set or the worker
@@ -302,7 +312,7 @@ Example C24_fetcher_ex_error :
   end.
 Proof. vm_compute. split; [reflexivity|]. split; [reflexivity|]. split; [reflexivity|]. constructor. Qed.
 
-(* C24_fetcher_no_lost_wakeup_partial: its hypotheses hold in the state before the first LGetWake above *)
+(* C24_fetcher_no_lost_wakeup: its hypotheses hold in the state before the first LGetWake above *)
 Example C24_fetcher_ex_wake :
   match run_labels (mkC fpar None 2 4) (Fetcher.init (mkC fpar None 2 4))
     [LFetch 0 10 [fA; fB]; LFetch 1 11 [fB; fC]; LSend 0; LSend 0; LFetchRet 0; LSend 1; LFetchRet 1;
@@ -329,3 +339,22 @@ Example C24_fetcher_distinct_ids_needed :
   | None => False
   end.
 Proof. vm_compute. split; reflexivity. Qed.
+
+(* C24_fetcher_no_deadlock: the quiescence hypothesis is satisfiable in a non-initial state (after both
+   transactions of C24_fetcher_ex_overlap were served, before Wait), and there all calls have returned *)
+Example C24_fetcher_ex_quiescent :
+  match run_labels (mkC fpar None 2 4) (Fetcher.init (mkC fpar None 2 4))
+    [LFetch 0 10 [fA; fB]; LFetch 1 11 [fB; fC]; LSend 0; LSend 0; LFetchRet 0; LSend 1; LFetchRet 1;
+     LTake 0; LTake 1; LGetBegin 0 10; LGetBegin 1 11; LRead 1; LRead 0; LSet 1; LSet 0;
+     LGetWake 0 false; LGetRead 0; LTake 0; LRead 0; LSet 0; LGetWake 1 false; LGetRead 1] with
+  | Some s => (forall l, is_internal l = true -> Fetcher.step (mkC fpar None 2 4) s l = None) /\ dupid s = false
+  | None => False
+  end.
+Proof.
+  vm_compute run_labels. split; [|reflexivity]. intros l Hl.
+  destruct l as [i t ks|i|i|i|w|w|w|w|w|w| | |g t|g st|g| |]; try discriminate Hl;
+    try (destruct i as [|[|i]]; vm_compute; reflexivity);
+    try (destruct w as [|[|w]]; vm_compute; reflexivity);
+    try (destruct g as [|[|g]]; vm_compute; reflexivity);
+    try (vm_compute; reflexivity).
+Qed.
